@@ -184,6 +184,15 @@ Theorem C09_default_table : forall a, inherit_default a = spec_initial a.
 Proof. exact initial_spec. Qed.
 Print Assumptions C09_default_table.
 
+(* which properties only CSS / the style attribute can set, and which image-rendering values *)
+Theorem C09_style_only_table : forall a, is_style_only a = spec_style_only a.
+Proof. exact style_only_spec. Qed.
+Print Assumptions C09_style_only_table.
+
+Theorem C09_css_only_values_table : css_only_ok = true.
+Proof. exact css_only_spec. Qed.
+Print Assumptions C09_css_only_values_table.
+
 (* the generated tables are coherent: every default belongs to a property that accepts `inherit`, no
    default is the keyword itself; style-only and non-inheritable names are presentation properties;
    `style` / `class` are not *)
